@@ -288,6 +288,9 @@ def sync_errors(ctx: Ctx, rule: str) -> None:
 
 def run(ctx: Ctx) -> None:
     ctx.call(wait_budget, "14")
+    from . import graphrules as GR2
+
+    ctx.call(GR2.object_root_value, "17")
     from .c04 import tries_default_agreement
 
     ctx.call(tries_default_agreement, "14d")
